@@ -549,6 +549,11 @@ impl<'a> QGen<'a> {
             6 => format!("search(@, $.re)"),
             _ => format!("count($.list[*]) >= {} && @", rng.range(2, 4)),
         };
+        if atom.starts_with("reenter") && rng.chance(3, 4) {
+            // over containers, so that the nested evaluation has something to report
+            let pre = *rng.pick(&["$.*", "$..*", "$", "$.x", "$.elems"]);
+            return format!("{}[?{}]", pre, atom);
+        }
         let extra = if rng.chance(1, 3) { format!(" && {}", self.atom(rng, 2)) } else { String::new() };
         format!("{}[?{}{}]", pre, atom, extra)
     }
